@@ -78,7 +78,9 @@ type Task struct {
 	waitLock  any    // *Mutex / *RWMutex the task is blocked on
 	waitWrite bool   // blocked as writer
 	polledAt  uint64 // kernel version at the last failed select poll
-	signaled  bool   // cond / waiter signalled
+	selCases  []SelCase
+	selFired  int
+	signaled  bool // cond / waiter signalled
 
 	locks []any // kernel locks currently owned (writer) or read-held, in acquisition order
 
